@@ -27,6 +27,54 @@ def roundtrip_event(obj, spec, w=False):
             "outcome": out, "back": back, "overflow": projection.pop_overflows()}
 
 
+def edit_in_place(obj, spec, rnd, nedits=6):
+    """Apply up to nedits catalogued public-API edits (one per leaf kind first) to obj in place; returns the kinds applied.
+    The Smooth `scale` controller is left alone (F-C09-1 / F-C06-smooth are reported by their own checks)."""
+    from .drivers.c06 import catalogue
+    _, leaves = catalogue(obj, spec, rnd)
+    leaves = [lf for lf in leaves if not (lf[0] == "controller.range" and "Smooth" in json.dumps(_mtype_at(obj, lf[1])))]
+    bykind = {}
+    for lf in leaves:
+        bykind.setdefault(lf[0], []).append(lf)
+    kinds = sorted(bykind, key=lambda k: (not k.startswith("payload."), rnd.random()))
+    done = []
+    for k in kinds[:nedits]:
+        kind, pth, fn, newv = rnd.choice(bykind[k])
+        try:
+            fn(obj)
+            done.append(kind)
+        except Exception:
+            pass
+    return done
+
+
+def _mtype_at(obj, path):
+    """Type name of the module a catalogue path points into (for edit filters)."""
+    o = obj
+    try:
+        if path and path[0] == "modules":
+            return o.modules[path[1] - 1].mtype
+        if path and path[0] == "module":
+            return o.module.mtype
+    except Exception:
+        pass
+    return ""
+
+
+def chain_events(obj, spec, rnd, w=False, nedits=6):
+    """History on ONE object and its reloaded copy: save; edit in place; save again (caches / memoised images must
+    follow the edits); load the second file, edit the loaded copy, save (nothing of the file may be replayed).
+    Each save is judged as its own round trip."""
+    evs = [roundtrip_event(obj, spec, w)]
+    kinds = edit_in_place(obj, spec, rnd, nedits)
+    evs.append(roundtrip_event(obj, spec, w))
+    out, q = load(obj.read())
+    if q is not None:
+        kinds += edit_in_place(q, spec, rnd, nedits)
+        evs.append(roundtrip_event(q, spec, False))
+    return evs, kinds
+
+
 def clone_event(mod, spec, w=False):
     """Module.clone(): judged as a stand-alone synth round trip of the module."""
     import rv.api as api
@@ -59,6 +107,37 @@ def load_event(data, spec):
     obj = projection.project_any(q, spec, True) if q is not None else {"kind": "none"}
     return {"op": "load", "chunks": tlv.to_json_nested(data, strict=False), "outcome": out, "obj": obj,
             "overflow": projection.pop_overflows()}
+
+
+def ranged_cval_sections(base, spec):
+    """[(indices of the CVAL chunks of ranged controllers, section holds an embedded container)] per module section of a
+    top-level chunk list.  Ranged controllers only: a number that is no member of an enumeration denotes nothing."""
+    secs, cur, cur_all, mtype = [], [], [], None
+    for j, c in enumerate(base):
+        if c["id"] == "STYP":
+            mtype = bytes(c["data"]).split(b"\0")[0].decode("latin1")
+        elif c["id"] == "CVAL":
+            kinds = [x["kind"] for x in spec.get(mtype, {"ctls": []})["ctls"]]
+            if len(cur_all) < len(kinds) and kinds[len(cur_all)] in ("range", "dep") and not (mtype == "Smooth" and len(cur_all) == 3):
+                cur.append(j)
+            cur_all.append(j)
+        elif c["id"] == "SEND":
+            if cur:
+                secs.append((cur, any(x["isn"] for x in base[cur[0]:j])))
+            cur, mtype = [], None
+        if c["id"] in ("SFFF", "SEND"):
+            cur_all = []
+    return secs
+
+
+def out_of_range_variant(base, sec, rnd):
+    """Copy of a chunk list with the given CVAL chunks overwritten by values beyond every nominal range."""
+    import struct
+    ed = json.loads(json.dumps(base))
+    for j in sec:
+        if rnd.random() < 0.6:
+            ed[j]["data"] = list(struct.pack("<i", rnd.choice([40000, 70000, 1 << 20, 5000, 300, 2000])))
+    return ed
 
 
 def fixtures():
